@@ -495,6 +495,105 @@ def tx_case(rng):
     return g.line(), g.stats
 
 
+def boundary_case(rng):
+    """ids on the case-split boundaries of table_inv: with the own bucket full of nodes that stay with
+    the own id for a long time, reply with an id that is EXACTLY the midpoint of the bucket about to
+    be split (last id of the lower half), midpoint + 1 (first id of the upper half), then midpoint
+    - 1, both bucket bounds and own id +- 1 — for every split depth reached"""
+    g = Gen(rng)
+    own = g.own
+    deep = [near(rng, own, rng.randrange(140, 158)) for _ in range(8)]
+    for j, i in enumerate(deep):
+        g.emit("R,%s,%d,%d" % (hid(i), g.ips[j % len(g.ips)], 3000 + j))
+    depth = 0
+    steps = 0
+    while depth < 130 and steps < rng.choice([3, 8, 20]):
+        steps += 1
+        w = 160 - depth
+        lo = (own >> w) << w if w < 160 else 0
+        hi = lo | ((1 << w) - 1)
+        mid = lo + (1 << (w - 1)) - 1
+        x = rng.choice([mid, mid, mid + 1])
+        if x == own or x == 0:
+            x = mid if x != mid else mid + 1
+        if x == own or x == 0:
+            break
+        g.emit("R,%s,%d,%d" % (hid(x), rng.choice(g.ips), 4000 + steps))
+        g.emit("D")
+        for y in rng.sample([mid - 1, mid, mid + 1, mid + 2, lo, hi, lo + 1, hi - 1, own - 1, own + 1], 3):
+            if 0 < y <= MAXID and y != own:
+                g.emit("R,%s,%d,%d" % (hid(y), rng.choice(g.ips), 5000 + steps))
+        g.emit("W,%s" % hid(mid))
+        g.emit("F,%s" % hid(rng.choice([mid, mid + 1, lo, hi])))
+        g.emit("D")
+        # the own bucket now ends where x and the own id part: one bit below their common prefix
+        common = 160 - (x ^ own).bit_length()
+        depth = max(depth + 1, common + 1)
+        if rng.random() < 0.3:
+            depth += 0
+    return g.line(), g.stats
+
+
+def deleted_node_case(rng, dgram):
+    """a node is listed in a bucket's node cache (built by a query), then fails five queries while it
+    has not been seen for 4 h and is deleted; the same query again, within the same 15 min period,
+    must not return it.  Variants: the node lies in the bucket covering the target (its removal
+    resets that bucket's cache) or in a neighbouring bucket whose nodes the target's bucket borrowed."""
+    g = Gen(rng, loop=dgram)
+    own = g.own
+    borrowed = rng.random() < 0.5
+    # nine nodes on the own side force a split at depth 0; the other half gets 1..3 nodes
+    ownside = [near(rng, own, rng.randrange(2, 6)) for _ in range(9)]
+    far = [near(rng, own, 0) for _ in range(rng.choice([1, 2, 3]))]
+    ports = {}
+    for j, i in enumerate(ownside + far):
+        ip, port = g.ips[j % len(g.ips)], g.nport()
+        ports[i] = (ip, port)
+        g.emit("R,%s,%d,%d" % (hid(i), ip, port))
+    for i in ownside[4:]:                   # thin the own side out again: the chain then has fewer than
+        g.emit("V,%s" % hid(i))             # 8 nodes before it reaches the victim's bucket
+    victim = rng.choice(far)
+    # the query asks near the victim (its own bucket, which is not full and borrows from the chain) or,
+    # for the borrowed variant, on the own side in a bucket with few nodes
+    target = victim ^ 0xff if not borrowed else near(rng, own, 1)
+    for _ in range(16):                     # 4 h of housekeeping: the victim is never heard of again
+        g.emit("T,900")
+        for i in ownside[:4]:
+            g.emit("R,%s,%d,%d" % (hid(i), ports[i][0], ports[i][1]))
+        g.old.append(g.prev)
+        g.prev, g.cur = g.cur, rng.getrandbits(31)
+        g.emit("H,%d" % g.cur)
+    g.emit("T,%d" % rng.choice([1, 60, 600]))
+
+    def ask():
+        if dgram:
+            g.emit(U(g.ips[0], q=QN["find_node"], id=hid(near(rng, own, 7)), target=hid(target)))
+        else:
+            g.emit("F,%s" % hid(target))
+    g.emit("D")
+    ask()
+    for _ in range(rng.choice([5, 5, 4, 6])):
+        g.emit("I,%s,%d,%d" % (hid(victim), ports[victim][0], ports[victim][1]))
+    g.emit("D")
+    ask()
+    return g.line(), g.stats
+
+
+def coverage_case(rng, n):
+    """n > 32 peers announce; then get_peers is asked with every random() value 0..127: the union of
+    the 32-peer windows must be the whole store"""
+    g = Gen(rng)
+    ih = g.ihs[0]
+    for j in range(n):
+        ip = (172 << 24) + (16 << 16) + j + 1
+        g.emit("A,%s,%d,%d,%s" % (hid(ih), ip, 1024 + j, token(g.cur, ip)))
+    order = list(range(128))
+    rng.shuffle(order)
+    for r in order:
+        g.emit("P,%s,%d,%d" % (hid(ih), g.ips[0], r))
+    return g.line(), g.stats
+
+
 def many_peers_case(rng, n):
     g = Gen(rng)
     ih = g.ihs[0]
@@ -584,6 +683,14 @@ def gen(seed, tier):
         add("deep-split", deep_split_case(rng, rng.choice([12, 40, 100, 159])))
     for _ in range(12 if q else 100):
         add("cluster", cluster_case(rng))
+    for _ in range(16 if q else 150):
+        add("boundary", boundary_case(rng))
+    for _ in range(6 if q else 40):
+        add("deleted-node", deleted_node_case(rng, False))
+    for _ in range(4 if q else 30):
+        add("dgram-deleted-node", deleted_node_case(rng, True))
+    for n in ([65, 33, 100] if q else [33, 34, 63, 64, 65, 66, 67, 96, 97, 98, 100, 127, 128]):
+        add("peer-coverage", coverage_case(rng, n))
     for _ in range(25 if q else 300):
         add("bad-node", bad_node_case(rng))
     for _ in range(20 if q else 200):
